@@ -277,8 +277,14 @@ class Replacer:
 
     def __init__(self, base):
         self.base = self.extract_base(base)
+        # set if base leaves the site of the referring sheet (`http://host/...` or `//host/...`)
+        self.foreign = base if any(urllib.parse.urlsplit(base)[:2]) else None
 
     def __call__(self, uri):
+        if self.foreign:
+            # a path alone cannot point back to the other site
+            return urllib.parse.urljoin(self.foreign, uri)
+
         scheme, location, path, query, fragment = urllib.parse.urlsplit(uri)
         if scheme or location or path.startswith('/'):
             # keep anything absolute
